@@ -380,27 +380,91 @@ impl Fp2Config for Fr255Fq2Config {
 }
 pub type Fr255Fq2 = Fp2<Fr255Fq2Config>;
 
+/// wire model of the with-flags entry points: the flags live in the LAST base-field
+/// coordinate only; every other coordinate is a plain reduced integer
+fn wf_model<F: Field, Fl: GenFlags>(bytes: &[u8], _c: Compress) -> crate::algebra::Model {
+    use crate::algebra::{model_field, Dec, Model};
+    match model_field::<F>(bytes, Fl::BIT_SIZE) {
+        Dec::Short => Model::Short,
+        Dec::Reject(w) => Model::Reject(w),
+        Dec::Unknown => Model::Unknown,
+        Dec::Ok((_, flags, n)) => {
+            if Fl::BIT_SIZE == 2 && flags & 0xc0 == 0xc0 {
+                Model::Reject("both sign and infinity flags set")
+            } else {
+                Model::Accept { consumed: n, valid: true, what: "field element with flags" }
+            }
+        },
+    }
+}
+
+/// foreign records: a flag-shaped bit in the top byte of a coordinate that carries no flags,
+/// a non-reduced coordinate, an invalid flag combination
+fn wf_foreign<F: Field, Fl: GenFlags>(g: &mut G<'_>, _c: Compress) -> Option<(Vec<u8>, &'static str)> {
+    use crate::algebra::{enc_field, prime_bytes};
+    let v: F = crate::algebra::gen_field(g);
+    let f = Fl::draw(g.rng);
+    let mut enc = enc_field(&v, f.u8_bitmask(), Fl::BIT_SIZE);
+    let fb = prime_bytes::<F::BasePrimeField>();
+    let d = F::extension_degree() as usize;
+    match g.rng.below(3) {
+        0 if d > 1 => {
+            let coord = g.rng.below(d - 1);
+            enc[(coord + 1) * fb - 1] |= *g.rng.pick(&[0x80u8, 0x40, 0xc0]);
+            Some((enc, "flag-shaped bit in a coordinate that carries no flags"))
+        },
+        1 => {
+            let coord = g.rng.below(d);
+            for b in &mut enc[coord * fb..(coord + 1) * fb] {
+                *b = 0xff;
+            }
+            Some((enc, "all ones"))
+        },
+        _ => {
+            if Fl::BIT_SIZE == 2 {
+                let n = enc.len();
+                enc[n - 1] |= 0xc0;
+                Some((enc, "both flag bits set"))
+            } else {
+                None
+            }
+        },
+    }
+}
+
+fn wf<F: Field, Fl: GenFlags>(name: &'static str, weight: u32) -> Entry {
+    Entry {
+        name,
+        props: F,
+        weight,
+        hooks: Hooks { model: Some(wf_model::<F, Fl>), foreign: Some(wf_foreign::<F, Fl>), zst_elems: false, budget: 8, fixed_size: true, bulk: false },
+        gen: gen_plan::<WithFlags<F, Fl>>,
+        exec: execute::<WithFlags<F, Fl>>,
+        show: show_values::<WithFlags<F, Fl>>,
+    }
+}
+
 pub fn flags_entries() -> Vec<Entry> {
     type SecpFq = ark_test_curves::secp256k1::Fq;
     vec![
-        e::<WithFlags<F64, SWFlags>>("with_flags F64+SWFlags (spills)", F, 1, 8),
-        e::<WithFlags<F64, TEFlags>>("with_flags F64+TEFlags (spills)", F, 1, 8),
-        e::<WithFlags<F63, SWFlags>>("with_flags F63+SWFlags (1 spare < 2)", F, 1, 8),
-        e::<WithFlags<F63, TEFlags>>("with_flags F63+TEFlags", F, 1, 8),
-        e::<WithFlags<F62, SWFlags>>("with_flags F62+SWFlags", F, 1, 8),
-        e::<WithFlags<F57, SWFlags>>("with_flags F57+SWFlags", F, 1, 8),
-        e::<WithFlags<SecpFq, SWFlags>>("with_flags secp256k1::Fq+SWFlags", F, 1, 8),
-        e::<WithFlags<SecpFq, TEFlags>>("with_flags secp256k1::Fq+TEFlags", F, 1, 8),
-        e::<WithFlags<SecpFq, EmptyFlags>>("with_flags secp256k1::Fq+EmptyFlags", F, 1, 8),
-        e::<WithFlags<Fr, SWFlags>>("with_flags Fr(255)+SWFlags", F, 1, 8),
-        e::<WithFlags<SecpFq2, SWFlags>>("with_flags Fp2(256 bit)+SWFlags", F, 2, 8),
-        e::<WithFlags<SecpFq2, TEFlags>>("with_flags Fp2(256 bit)+TEFlags", F, 1, 8),
-        e::<WithFlags<SecpFq2, EmptyFlags>>("with_flags Fp2(256 bit)+EmptyFlags", F, 1, 8),
-        e::<WithFlags<Fr255Fq2, SWFlags>>("with_flags Fp2(255 bit)+SWFlags", F, 2, 8),
-        e::<WithFlags<Fr255Fq2, TEFlags>>("with_flags Fp2(255 bit)+TEFlags", F, 1, 8),
-        e::<WithFlags<ark_test_curves::bls12_381::Fq2, SWFlags>>("with_flags bls12_381::Fq2+SWFlags", F, 1, 8),
-        e::<WithFlags<ark_test_curves::mnt6_753::Fq3, SWFlags>>("with_flags mnt6_753::Fq3+SWFlags", F, 1, 8),
-        e::<WithFlags<ark_bw6_761::Fq3, TEFlags>>("with_flags bw6_761::Fq3+TEFlags", F, 1, 8),
+        wf::<F64, SWFlags>("with_flags F64+SWFlags (spills)", 1),
+        wf::<F64, TEFlags>("with_flags F64+TEFlags (spills)", 1),
+        wf::<F63, SWFlags>("with_flags F63+SWFlags (1 spare < 2)", 1),
+        wf::<F63, TEFlags>("with_flags F63+TEFlags", 1),
+        wf::<F62, SWFlags>("with_flags F62+SWFlags", 1),
+        wf::<F57, SWFlags>("with_flags F57+SWFlags", 1),
+        wf::<SecpFq, SWFlags>("with_flags secp256k1::Fq+SWFlags", 1),
+        wf::<SecpFq, TEFlags>("with_flags secp256k1::Fq+TEFlags", 1),
+        wf::<SecpFq, EmptyFlags>("with_flags secp256k1::Fq+EmptyFlags", 1),
+        wf::<Fr, SWFlags>("with_flags Fr(255)+SWFlags", 1),
+        wf::<SecpFq2, SWFlags>("with_flags Fp2(256 bit)+SWFlags", 2),
+        wf::<SecpFq2, TEFlags>("with_flags Fp2(256 bit)+TEFlags", 1),
+        wf::<SecpFq2, EmptyFlags>("with_flags Fp2(256 bit)+EmptyFlags", 1),
+        wf::<Fr255Fq2, SWFlags>("with_flags Fp2(255 bit)+SWFlags", 2),
+        wf::<Fr255Fq2, TEFlags>("with_flags Fp2(255 bit)+TEFlags", 1),
+        wf::<ark_test_curves::bls12_381::Fq2, SWFlags>("with_flags bls12_381::Fq2+SWFlags", 1),
+        wf::<ark_test_curves::mnt6_753::Fq3, SWFlags>("with_flags mnt6_753::Fq3+SWFlags", 1),
+        wf::<ark_bw6_761::Fq3, TEFlags>("with_flags bw6_761::Fq3+TEFlags", 1),
         w::<SecpFq2>("harness Fp2 over secp256k1::Fq", F, 1, 8),
         w::<Fr255Fq2>("harness Fp2 over bls12_381::Fr", F, 1, 8),
     ]
